@@ -126,6 +126,11 @@ class Timeline(object):
         for bar in track["bars"]:
             self.play_bar(bar)
 
+    def advance_to(self, tick):
+        """Silence up to `tick` (used for the reading in which the repeats of the tracks of a
+        composition are aligned on the longest track)."""
+        self.now = max(self.now, tick)
+
     def play_standalone(self, notes):
         """A note or a container written on its own: 72 ticks."""
         if sounding(notes):
@@ -181,7 +186,6 @@ def compare_meta(events, tl, bpm=None):
     """Tempo, track name, per-bar time/key signature, instrument change."""
     from mc.ref import smf
     problems = []
-    first_on = next((i for i, e in enumerate(events) if e.kind == "on"), len(events))
     # tempo
     if bpm is not None:
         tempos = [(i, e.tick, smf.tempo_of(e)) for i, e in enumerate(events) if e.kind == "meta" and e.a == smf.META_TEMPO]
@@ -189,8 +193,6 @@ def compare_meta(events, tl, bpm=None):
         if not tempos:
             problems.append(("set-tempo event", want, "none"))
         else:
-            if tempos[0][1] != 0 or tempos[0][0] > first_on:
-                problems.append(("set-tempo event position", "at tick 0 before the first note", {"tick": tempos[0][1]}))
             bad = [t[2] for t in tempos if t[2] != want]
             if bad:
                 problems.append(("set-tempo value (microseconds per quarter)", want, bad[:4]))
@@ -223,28 +225,27 @@ def compare_meta(events, tl, bpm=None):
 
 
 def compare_instruments(events, tl):
-    """For MIDI instruments: a bank select (controller 0) and a program change with the instrument
-    number on the first note's channel, before that note and after every earlier note event.
+    """For MIDI instruments: when the first note of the track sounds, the program in effect on that
+    note's channel (the last program change on the channel before the note-on) is the instrument
+    number, and a bank select (controller 0, any value) on that channel precedes the note.
     Only meaningful when compare_notes found nothing (the note events then are exactly tl.notes)."""
     problems = []
-    note_idx = [i for i, e in enumerate(events) if e.kind in ("on", "off")]
     on_idx = [i for i, e in enumerate(events) if e.kind == "on"]
     for (k, channel, nr) in tl.instruments:
         # the k-th written note is the k-th note-on of the stream (entries are sequential)
         if k >= len(on_idx):
             problems.append(("instrument change", "a note-on number %d" % k, "stream too short"))
             continue
-        at = on_idx[k]
-        prev = max([i for i in note_idx if i < at] or [-1])
-        window = events[prev + 1:at]
-        banks = [(e.channel, e.a, e.b) for e in window if e.kind == "cc"]
-        progs = [(e.channel, e.a) for e in window if e.kind == "pc"]
+        before = events[:on_idx[k]]
+        banks = [(e.channel, e.a, e.b) for e in before if e.kind == "cc"]
+        progs = [(e.channel, e.a) for e in before if e.kind == "pc"]
         if not any(c == channel and ctl == 0 for (c, ctl, _v) in banks):
             problems.append(("bank select before the first note", {"controller": 0, "channel": channel},
-                             {"controller_events (channel, controller, value)": banks}))
-        if (channel, nr) not in progs:
+                             {"controller_events (channel, controller, value)": banks[-4:]}))
+        on_channel = [p for (c, p) in progs if c == channel]
+        if not on_channel or on_channel[-1] != nr:
             problems.append(("program change before the first note", {"channel": channel, "program": nr},
-                             {"program_changes (channel, program)": progs}))
+                             {"program_changes (channel, program)": progs[-4:]}))
     if tl.requested_programs:
         stray = sorted(set(e.a for e in events if e.kind == "pc") - tl.requested_programs)
         if stray:
